@@ -49,11 +49,15 @@ Record xshape := mkshape {
   sh_xsi_guard : bool;            (* from_element: cls = self._get_xsi_target(cls, newclass, xsi_type) *)
   sh_memberless_base : bool;      (* _get_type_info: a base without members of its own is kept as __extends__ when it
                                      extends a class itself (the parent links of the universe are __extends__) *)
-  sh_soap_inplace : bool          (* Soap11.serialize creates Header and Body as SubElements of the envelope and fills them
+  sh_soap_inplace : bool;         (* Soap11.serialize creates Header and Body as SubElements of the envelope and fills them
                                      in place (a finished subtree moved into the envelope loses the declarations lxml
                                      considers redundant, the one of the xsi:type prefix among them) *)
+  sh_subclasses_rec : bool;       (* get_subclasses: retval.extend(subca); for subc in subca: retval.extend(subc.get_subclasses())
+                                     -- the transitive closure, by recursion on every direct subclass ([get_subclasses]) *)
+  sh_flat_fresh : bool            (* get_flat_type_info(cls) = _get_flat_type_info(cls, TypeInfo()): a fresh accumulator per
+                                     class, nothing shared between the flattened type infos of a class and its subclasses *)
 }.
-Definition shape_ok : xshape := mkshape true true true true true true true true true true true.
+Definition shape_ok : xshape := mkshape true true true true true true true true true true true true true.
 
 (* ------------------------------------------------------------------ 1. TypeInfo (odict) *)
 
